@@ -77,12 +77,11 @@ class DataIndexView(BaseDataIndex):
         def _node_factory(_, key, children, *args) -> Optional[_FilterNode]:
             return _FilterNode(key, children, *args)
 
-        if ensure_loaded and prefix:
+        if ensure_loaded:
             # NOTE: the prefix may point inside a directory that has not been
-            # loaded yet (same as DataIndex.iteritems).
-            item = self._index.longest_prefix(prefix)
-            if item:
-                self._index._load(*item)
+            # loaded yet (same as DataIndex.iteritems). The root entry is never
+            # yielded below, so it has to be loaded up front too.
+            self._index._load_enclosing_dir(prefix or ())
 
         kwargs = {"prefix": prefix} if prefix is not None else {}
         stack = deque([self.traverse(_node_factory, **kwargs)])
